@@ -223,18 +223,26 @@ class Categorize(Factory, Container):
     def __rmul__(self, factor):
         return self.__mul__(factor)
 
+    @staticmethod
+    def _category(x):
+        """The key under which a category is kept: the string it is serialised as."""
+        return str(x)
+
     @inheritdoc(Container)
     def fill(self, datum, weight=1.0):
         self._checkForCrossReferences()
 
         if weight > 0.0:
             q = self.quantity(datum)
-            if isinstance(q, (basestring, bool)):
+            if isinstance(q, (basestring, bool, np.bool_)):
                 pass
             elif q is None or np.isnan(q):
                 q = "NaN"
-            if not isinstance(q, (basestring, bool)):
+            if not isinstance(q, (basestring, bool, np.bool_)):
                 raise TypeError(f"function return value ({q}) must be a string or bool")
+            # categories are kept under the string they are serialised as: a boolean category and its spelling in a
+            # reloaded document are the same bin
+            q = self._category(q)
 
             sub = self.bins.get(q)
             if sub is None:
@@ -280,6 +288,7 @@ class Categorize(Factory, Container):
                     pass
                 elif xval is None or np.isnan(xval):
                     xval = "NaN"
+                xval = self._category(xval)
                 if xval not in self.bins:
                     self.bins[xval] = self.value.zero()
                 self.bins[xval]._numpy(None, c, [None])
@@ -295,6 +304,7 @@ class Categorize(Factory, Container):
                     pass
                 elif xval is None or np.isnan(xval):
                     xval = "NaN"
+                xval = self._category(xval)
                 if xval not in self.bins:
                     self.bins[xval] = self.value.zero()
 
